@@ -1,0 +1,45 @@
+//go:build verif
+
+// Contracts for package gripql, read by /verif/gvc (comment-only file; it
+// declares nothing and is compiled only with -tags verif).
+package gripql
+
+// ---- C16: what the validators accept can be stored faithfully -------------------
+// nozero(s): s has no 0x00 byte, the separator of the composite storage keys.
+
+//@ func containsNul
+//@   property C16
+//@   pure
+//@   ensures def: result <==> !nozero(s)
+
+//@ func validate
+//@   property C16
+//@   pure
+//@   ensures accepts: result == nil <==> (nozero(k) &&
+//@       !containsAny(k, "!@#$%^&*()+={}[] :;\"',.<>?/\\|~") && !hasprefix(k, "_") && !hasprefix(k, "-"))
+
+//@ func ValidateGraphName
+//@   property C16
+//@   pure
+//@   ensures faithful: result == nil ==> nozero(graph)
+//@   ensures accepts: result == nil <==> (nozero(graph) &&
+//@       !containsAny(graph, "!@#$%^&*()+={}[] :;\"',.<>?/\\|~") && !hasprefix(graph, "_") && !hasprefix(graph, "-"))
+
+//@ func ValidateFieldName
+//@   property C16
+//@   pure
+//@   ensures faithful: result == nil ==> nozero(k)
+
+//@ func (*Vertex).Validate
+//@   property C16
+//@   pure
+//@   requires nonnil: vertex != nil
+//@   ensures nonblank: result == nil ==> vertex.Gid != "" && vertex.Label != ""
+//@   ensures faithful: result == nil ==> nozero(vertex.Gid) && nozero(vertex.Label)
+
+//@ func (*Edge).Validate
+//@   property C16
+//@   pure
+//@   requires nonnil: edge != nil
+//@   ensures nonblank: result == nil ==> edge.Gid != "" && edge.Label != "" && edge.From != "" && edge.To != ""
+//@   ensures faithful: result == nil ==> nozero(edge.Gid) && nozero(edge.Label) && nozero(edge.From) && nozero(edge.To)
